@@ -385,3 +385,178 @@ def run(ctx):  # noqa: F811
     r26_4(ctx, ctx.model)
     r26_5(ctx, ctx.model)
     r26_6(ctx, ctx.model)
+
+
+def r26_7(ctx, m):
+    """streaming statistics: one-step induction on terms read from StatCalculator"""
+    from .c03 import _load_sympy
+    ctx.rule("R26.7", "StatCalculator by induction over the number of added values (terms read from add/mean/var, sympy as normaliser): "
+                      "after the first value mean = x and the accumulated spread is 0; if mean_n and var_n are the arithmetic mean "
+                      "and unbiased variance of n values, then after add(x) mean_(n+1) = mean_n + (x - mean_n)/(n+1) and "
+                      "n var_(n+1) = (n-1) var_n + (x - mean_n)(x - mean_(n+1)) - the exact recurrences of mean and unbiased variance", floor=3)
+    sp = _load_sympy()
+    C = m.cls("nifty.cl.probing", "StatCalculator", required=False)
+    if sp is None or C is None:
+        ctx.und("R26.7", "nifty/cl/probing.py::StatCalculator", "sympy or class not available", "nifty/cl/probing.py")
+        return
+    ctx.saw_class(C)
+    add, mean, var = C.methods.get("add"), C.methods.get("mean"), C.methods.get("var")
+    if add is None or mean is None or var is None:
+        ctx.und("R26.7", f"{C.key}::add/mean/var", "method missing", C)
+        return
+    for f in (add, mean, var):
+        ctx.saw_func(f)
+    xname = add.params()[1]
+    X = sp.Symbol("x", real=True)
+
+    class NU(Exception):
+        pass
+
+    def prop_value(name, state):
+        fi = C.methods[name]
+        rets = [r for r in walk_no_nested(fi.node) if isinstance(r, ast.Return) and r.value is not None]
+        if len(rets) != 1:
+            raise NU(f"{name}: {len(rets)} returns")
+        loc = {}
+        for st in fi.node.body:
+            if isinstance(st, ast.Assign) and isinstance(st.targets[0], ast.Name):
+                loc[st.targets[0].id] = ev(st.value, state, loc)
+        return ev(rets[0].value, state, loc)
+
+    def ev(e, state, loc):
+        if isinstance(e, ast.Constant) and isinstance(e.value, (int, float)) and not isinstance(e.value, bool):
+            return sp.nsimplify(e.value)
+        if isinstance(e, ast.Name):
+            if e.id == xname:
+                return X
+            if e.id in loc:
+                return loc[e.id]
+            raise NU(e.id)
+        if isinstance(e, ast.Attribute) and src(e.value) == "self":
+            if e.attr in state:
+                return state[e.attr]
+            if e.attr in ("mean", "var") and e.attr in C.methods:
+                return prop_value(e.attr, state)
+            raise NU(src(e))
+        if isinstance(e, ast.UnaryOp) and isinstance(e.op, ast.USub):
+            return -ev(e.operand, state, loc)
+        if isinstance(e, ast.BinOp) and type(e.op) in (ast.Add, ast.Sub, ast.Mult, ast.Div, ast.Pow):
+            a, b = ev(e.left, state, loc), ev(e.right, state, loc)
+            return {ast.Add: a + b, ast.Sub: a - b, ast.Mult: a * b, ast.Div: a / b, ast.Pow: a ** b}[type(e.op)]
+        raise NU(src(e)[:50])
+
+    def run(body, state, loc):
+        for st in body:
+            if isinstance(st, ast.Expr):
+                continue
+            if isinstance(st, ast.AugAssign) and isinstance(st.target, ast.Attribute) and src(st.target.value) == "self" and isinstance(st.op, (ast.Add, ast.Sub)):
+                cur = state[st.target.attr]
+                v = ev(st.value, state, loc)
+                state[st.target.attr] = cur + v if isinstance(st.op, ast.Add) else cur - v
+            elif isinstance(st, ast.Assign) and len(st.targets) == 1:
+                t = st.targets[0]
+                v = ev(st.value, state, loc)
+                if isinstance(t, ast.Name):
+                    loc[t.id] = v
+                elif isinstance(t, ast.Attribute) and src(t.value) == "self":
+                    state[t.attr] = v
+                else:
+                    raise NU(src(st)[:50])
+            elif isinstance(st, ast.If):
+                t = st.test
+                if not (isinstance(t, ast.Compare) and len(t.ops) == 1 and isinstance(t.ops[0], (ast.Eq, ast.NotEq, ast.Lt, ast.LtE))):
+                    raise NU(f"test {src(t)}")
+                a, b = ev(t.left, state, loc), ev(t.comparators[0], state, loc)
+                rel = {ast.Eq: sp.Eq, ast.NotEq: sp.Ne, ast.Lt: sp.Lt, ast.LtE: sp.Le}[type(t.ops[0])](a, b)
+                rel = sp.simplify(rel)
+                if rel == sp.true:
+                    run(st.body, state, loc)
+                elif rel == sp.false:
+                    run(st.orelse, state, loc)
+                else:
+                    raise NU(f"test {src(t)} undetermined ({rel})")
+            else:
+                raise NU(src(st)[:50])
+    attrs = sorted({t.attr for st in ast.walk(add.node) if isinstance(st, ast.Assign) for t in st.targets
+                    if isinstance(t, ast.Attribute) and src(t.value) == "self"})
+    key0 = f"{C.key}::first value: mean = x; two values: var = (x-y)^2/2"
+    key1 = f"{C.key}::induction step for the mean"
+    key2 = f"{C.key}::induction step for the unbiased variance"
+    try:
+        # base case
+        st0 = {"_count": sp.Integer(0)}
+        run(add.node.body, st0, {})
+        m1 = prop_value("mean", st0)
+        # two values: variance of {x, y} must be (x-y)^2/2 -> checked through the step below with n = 1
+        Y = sp.Symbol("y", real=True)
+        st1 = {k: (v.subs(X, Y) if hasattr(v, "subs") else v) for k, v in st0.items()}
+        run(add.node.body, st1, {})
+        v2 = sp.simplify(prop_value("var", st1) - (X - Y) ** 2 / 2)
+        ctx.check("R26.7", key0, sp.simplify(m1 - X) == 0 and st0["_count"] == 1 and v2 == 0,
+                  f"after one add: count = {st0['_count']}, mean = {m1}; after two adds: var - (x-y)^2/2 = {v2}", C, add.node)
+        # step
+        n = sp.Symbol("n", integer=True, positive=True)
+        syms = {a: sp.Symbol(a.strip("_"), real=True) for a in attrs}
+        st = dict(syms)
+        st["_count"] = n
+        MU, V = sp.Symbol("mu", real=True), sp.Symbol("v", real=True)
+        mean_n = prop_value("mean", st)
+        # the variance needs n >= 2 to be defined; for n = 1 the spread accumulator must be 0: treat (n-1) var_n as the spread
+        var_n_times = sp.simplify(prop_value("var", st) * (n - 1))
+        sol = sp.solve([sp.Eq(mean_n, MU), sp.Eq(var_n_times, (n - 1) * V)], [syms[a] for a in attrs], dict=True)
+        if len(sol) != 1:
+            raise NU(f"state not determined by (mean, variance): {len(sol)} solutions")
+        st2 = {k: (v.subs(sol[0]) if hasattr(v, "subs") else v) for k, v in st.items()}
+        run(add.node.body, st2, {})
+        mean_n1 = sp.simplify(prop_value("mean", st2))
+        var_n1_times = sp.simplify(prop_value("var", st2) * (st2["_count"] - 1))
+        want_m = MU + (X - MU) / (n + 1)
+        want_v = (n - 1) * V + (X - MU) * (X - want_m)
+        ctx.check("R26.7", key1, sp.simplify(mean_n1 - want_m) == 0 and sp.simplify(st2["_count"] - n - 1) == 0, f"mean' = {mean_n1}", C, add.node)
+        ctx.check("R26.7", key2, sp.simplify(var_n1_times - want_v) == 0, f"n var' = {var_n1_times}; expected {sp.simplify(want_v)}", C, add.node)
+    except NU as exc:
+        for k in (key0, key1, key2):
+            ctx.und("R26.7", k, f"not understood: {exc}", C)
+    except Exception as exc:  # sympy could not solve / simplify
+        for k in (key0, key1, key2):
+            ctx.und("R26.7", k, f"normaliser failed: {type(exc).__name__}: {exc}", C)
+    # numerically stable form
+    ctx.rule("R26.8", "StatCalculator.var is not a difference of accumulated raw moments (sum of squares minus squared sum / n): that "
+                      "form loses all significant digits when the common offset of the values is large compared with their scatter; "
+                      "the spread is accumulated from products of deviations from the running mean", floor=1)
+    rets = [r for r in walk_no_nested(var.node) if isinstance(r, ast.Return) and r.value is not None]
+    key = f"{var.key}::no cancellation of raw moments"
+    if len(rets) != 1:
+        ctx.und("R26.8", key, f"{len(rets)} returns", var)
+        return
+    loc = {st.targets[0].id: st.value for st in var.node.body if isinstance(st, ast.Assign) and isinstance(st.targets[0], ast.Name)}
+    subs_attrs = set()
+    for b in ast.walk(rets[0].value):
+        if isinstance(b, ast.BinOp) and isinstance(b.op, ast.Sub):
+            la = {x.attr for x in ast.walk(b.left) if isinstance(x, ast.Attribute) and src(x.value) == "self" and x.attr != "_count"}
+            ra = {x.attr for x in ast.walk(b.right) if isinstance(x, ast.Attribute) and src(x.value) == "self" and x.attr != "_count"}
+            if la and ra:
+                subs_attrs |= la | ra
+    # accumulators that only ever grow by (products of) the raw value
+    raw = set()
+    for st in ast.walk(add.node):
+        if isinstance(st, ast.Assign) and isinstance(st.targets[0], ast.Attribute) and src(st.targets[0].value) == "self":
+            a = st.targets[0].attr
+            v = st.value
+            if isinstance(v, ast.BinOp) and isinstance(v.op, ast.Add) and src(v.left) == f"self.{a}" and \
+                    not any(isinstance(x, ast.Name) and x.id != xname for x in ast.walk(v.right)) and \
+                    not any(isinstance(x, ast.Attribute) and src(x.value) == "self" for x in ast.walk(v.right)):
+                raw.add(a)
+    bad = sorted(subs_attrs & raw)
+    if len(bad) >= 2:
+        ctx.bad("R26.8", key, f"`{src(rets[0].value)}` subtracts the raw-moment accumulators {bad} from each other", var, rets[0])
+    else:
+        ctx.check("R26.8", key, True if not subs_attrs else None, src(rets[0].value), var, rets[0])
+
+
+_run_c26b = run
+
+
+def run(ctx):  # noqa: F811
+    _run_c26b(ctx)
+    r26_7(ctx, ctx.model)
